@@ -67,6 +67,17 @@ def main():
         if rc != 0:
             print("REJECT: patch does not apply\n" + out); return 1
         rc2, out = sh("go build ./... && go test -vet=off -count=1 ./... > /var/tmp/seedv-suite-%d.log 2>&1; rc=$?; grep -v '^ok\\|no test files' /var/tmp/seedv-suite-%d.log | tail -30; rm -f /var/tmp/seedv-suite-%d.log; exit $rc" % ((os.getpid(),)*3), cwd=wt, timeout=3000)
+        if rc2 != 0:
+            # tests that compare with the OS (bpf) or depend on timing flake on a loaded machine:
+            # re-run only the packages that failed, once, before rejecting
+            import re as _re
+            pk = sorted(set(_re.findall(r"^(?:FAIL|---\s*FAIL.*|panic.*)?\s*FAIL\s+(golang\.org/x/net/\S+)", out, _re.M)))
+            if pk:
+                rel = " ".join("./" + x.split("golang.org/x/net/")[1] for x in pk)
+                rc3, out3 = sh("go test -vet=off -count=1 %s" % rel, cwd=wt, timeout=1800)
+                res["suite_retry_packages"] = rel
+                if rc3 == 0:
+                    rc2 = 0
         res["suite_with_patch_rc"] = rc2
         if rc2 != 0:
             print("REJECT: existing suite fails (or build breaks) with the patch\n" + out); return 1
